@@ -494,6 +494,34 @@ fn thread_op(k: usize, guards: &mut Vec<G>, w: &[&str]) -> Option<String> {
             }
             _ => "bad-op most recent guard is not a collector".into(),
         },
+        ["closeUnder"] => {
+            // release the scope / collector guard beneath the still-open local spans first
+            let mut i = guards.len();
+            while i > 0 && matches!(guards[i - 1], G::Local(_)) {
+                i -= 1;
+            }
+            if i == 0 {
+                "bad-op no scope under the open local spans".into()
+            } else {
+                drop(guards.remove(i - 1));
+                "ok".into()
+            }
+        }
+        ["collectUnder", x] => {
+            let mut i = guards.len();
+            while i > 0 && matches!(guards[i - 1], G::Local(_)) {
+                i -= 1;
+            }
+            if i > 0 && matches!(guards[i - 1], G::Coll(Some(_))) {
+                if let G::Coll(Some(c)) = guards.remove(i - 1) {
+                    let ls = c.collect();
+                    LSPANS.lock().unwrap().get_or_insert_with(HashMap::new).insert(x.to_string(), ls);
+                }
+                "ok".into()
+            } else {
+                "bad-op no collector under the open local spans".into()
+            }
+        }
         ["lWithProps", cl] => {
             let cl = parse_closure(cl)?;
             match guards.last_mut() {
@@ -676,6 +704,8 @@ impl Reporter for Rep {
 enum CMsg {
     Phase(&'static str),
     Done,
+    /// the collector cycle panicked (reported at once instead of waiting out OP_TIMEOUT)
+    Panicked,
 }
 
 struct Collector {
@@ -735,9 +765,9 @@ fn start_collector() -> Collector {
             IS_COLLECTOR.with(|c| c.set(true));
             while let Ok(step) = cmd_rx.recv() {
                 *stepping.lock().unwrap() = step;
-                verif::run_collector_cycle();
+                let r = catch_unwind(AssertUnwindSafe(verif::run_collector_cycle));
                 *stepping.lock().unwrap() = false;
-                let _ = msg_tx.send(CMsg::Done);
+                let _ = msg_tx.send(if r.is_ok() { CMsg::Done } else { CMsg::Panicked });
             }
         })
         .unwrap();
@@ -823,6 +853,7 @@ fn run_case() {
                     coll.cmd_tx.send(false).unwrap();
                     match coll.msg_rx.recv_timeout(OP_TIMEOUT) {
                         Ok(CMsg::Done) => finish_cycle(reporter_set),
+                        Ok(CMsg::Panicked) => "panic".into(),
                         _ => "timeout".into(),
                     }
                 }
@@ -847,6 +878,7 @@ fn run_case() {
                         }
                         // no reporter: handle_commands returns before BeforeReport
                         Ok(CMsg::Done) => "phase done".into(),
+                        Ok(CMsg::Panicked) => "panic".into(),
                         Err(_) => "timeout".into(),
                     }
                 }
@@ -862,9 +894,17 @@ fn run_case() {
                             in_cycle = false;
                             finish_cycle(reporter_set)
                         }
+                        Ok(CMsg::Panicked) => {
+                            in_cycle = false;
+                            "panic".into()
+                        }
                         Err(_) => "timeout".into(),
                     }
                 }
+            }
+            ["sleep", us] => {
+                std::thread::sleep(Duration::from_micros(us.parse().unwrap_or(0)));
+                "ok".into()
             }
             ["cycleAtPush", n] => {
                 *CYCLE_AT_PUSH.lock().unwrap() = n.parse().ok();
